@@ -38,9 +38,15 @@ claimed.update({
  "C14": dict(text="Deductive proof that the map-backed encoders under contract (Record/Set MarshalCedar and MarshalJSON, PolicySet.MarshalCedar) emit their elements in sorted key order - sortedness and completeness of the key list asserted after the sort for every map iteration order - and that a record literal evaluates its attributes in sorted key order (first error is order-independent).",
              note="Only the order-determining step is proved; the bytes written for each element (fmt/strconv/encoding/json) are opaque to the contract logic. Determinism of Authorize's decision/reason/error sets is the C02 proof (set-based specification, independent of enumeration order). Entity map, schema and policy JSON encoders are not under contract.",
              ref="DESIGN.md §6 C14"),
- "C16": dict(text="Deductive proof of panic-freedom and totality of Validator.typeOfValue for every value (including set, record and extension literals decoded from JSON), plus the panic-freedom sweep with termination measures of the schema text lexer.",
+ "C16": dict(text="Deductive proof of panic-freedom and totality of Validator.typeOfValue for every value (including set, record and extension literals decoded from JSON): a thin slice of the property.",
              note="Thin slice: resolution (cycle handling), the remaining type checker and termination of isEntityDescendant (repaired by a fix commit, visited set) are unverified surroundings; see DESIGN.md for what was tried.",
              ref="DESIGN.md §6 C16"),
+ "C06": dict(text="Slice: deductive proof that the partial evaluator decides a scope clause exactly when the request part is a concrete entity, with the verdict the full semantics gives (equality, reachability, reachability of some member of the set form - soundness and completeness -, type test), that unknown parts leave the clause in place and ignored parts satisfy it.",
+             note="Only partialScopeEval and the three scope wrappers are under contract. The expression-level partial evaluator (partial, tryPartial, partialAnd/Or/IfThenElse) and PartialPolicy's condition handling are unverified surroundings; the suspected unsoundness for unknowns nested in composite values (DESIGN.md section 6) is therefore neither proved absent nor recorded as a finding.",
+             ref="DESIGN.md §6 C06"),
+ "C15": dict(text="Slice: deductive proof that the validator accepts a comparison (<, <=, >, >=) only if both operand types are one and the same comparable type, which is the condition under which the evaluator's comparison cannot raise a type error (one genuine defect found and repaired here).",
+             note="One function contract (Validator.typeOfComparison over an opaque typeOfExpr). Validator soundness as a whole - every operator, capabilities, request environments, entity store conformance - is a type-soundness theorem outside function-level contracts; everything else in the validator is unverified surroundings. Assumed: Unwrap() []error of joined errors has no nil entries.",
+             ref="DESIGN.md §6 C15"),
 })
 na = {}
 props = [json.loads(l) for l in open('properties.jsonl')]
